@@ -240,8 +240,9 @@ impl Matcher {
             .checked_sub(1)
             .map(|i| haystack[i].char_class(&self.config))
             .unwrap_or(self.config.initial_char_class);
+        // the last position at which the needle can start (inclusive)
         let end = haystack.len() - needle.len();
-        for (i, &c) in haystack[start..end].iter().enumerate() {
+        for (i, &c) in haystack[start..=end].iter().enumerate() {
             let (c, char_class) = c.char_class_and_normalize(&self.config);
             if c != needle[0] {
                 prev_class = char_class;
